@@ -31,7 +31,7 @@ ASSUMPTIONS = [
 ]
 TRUSTED_BASE = ["harness/src/area_str.rs dump_tables + lib/gen_coq.py case_tables (table translator)"]
 KERNEL_SAMPLE = {"quick": 200, "thorough": 2000}
-MANIFEST_PENDING = dict(
+MANIFEST = dict(
     text="Coq theorems over a hand-written model of builtin/string.rs and builtin/char.rs (byte offsets computed as the Rust "
          "computes them, explicit Panic for off-boundary slices and usize underflow): every procedure refines a "
          "vector-of-scalars specification (string-ref/set!/fill!/copy/->list by character index for replacement characters of "
